@@ -18,11 +18,15 @@ TERMS = [
     ("N", "/x([^b]|b+[^by])*b+y/", "x((?=[\\t-\\r -~])[^b]|b+(?=[\\t-\\r -~])[^by])*b+y"),
     # the same multi-byte character leaving different states of one terminal's automaton
     ("O", '"été"', "été"), ("P", "/é(a|é)ü/", "é(a|é)ü"),
+    # two-byte characters differing in both bytes on parallel arcs (é = c3 a9, ā = c4 81)
+    ("Q", "/[éāx]+/", "[éāx]+"),
+    # the same source text as another terminal, with a different flag or kind
+    ("E_I", '"ab"i', "(?i:ab)"), ("LIT", '"a."', "a\\."), ("RE", "/a./", "a(?=[\\t-\\r -~])."),
 ]
-EXTRA = {"N": ["xbaby", "xbbaby", "xabby", "xbay", "xbab", "xby"], "O": ["été", "ét", "éé", "é", "tété"], "P": ["éaü", "ééü", "éü", "éé"]}
-RELATED = {"E": ["E_1", "E_2"], "H": ["H_1", "H_2"], "A": ["A_1"], "B": ["B_0"]}
+EXTRA = {"E_I": ["aB", "AB", "Ab"], "LIT": ["a."], "RE": ["ab", "a.", "aa"], "Q": ["éā", "āx", "é"], "N": ["xbaby", "xbbaby", "xabby", "xbay", "xbab", "xby"], "O": ["été", "ét", "éé", "é", "tété"], "P": ["éaü", "ééü", "éü", "éé"]}
+RELATED = {"E": ["E_1", "E_2", "E_I"], "H": ["H_1", "H_2"], "A": ["A_1"], "B": ["B_0"], "E_I": ["E"], "LIT": ["RE"], "RE": ["LIT"]}
 # (negated classes are relative to the default character set, string.printable: the oracle pattern of I says so)
-ALPHA = list("abcsSé ü€ßx肱🟠👋😊yt")
+ALPHA = list("abcsSé ü€ßx肱🟠👋😊ytāAB.")
 
 
 def viol(ctx, sig, what, obj):
